@@ -332,3 +332,62 @@ def switch_table(an, body, scrut_pred, dest_local=0):
         oth = arm_result(an, body, t["otherwise"], dest_local)
         return (b, table, oth, e)
     return None
+
+
+# ---------------------------------------------------------------------------
+# conditional reachability: which blocks can execute when some values are assumed
+
+def _cmp(op, x, y):
+    return {"Eq": x == y, "Ne": x != y, "Lt": x < y, "Le": x <= y, "Gt": x > y, "Ge": x >= y}.get(op)
+
+
+def eval_assuming(e, assume):
+    """Value of expression e under {canon(expr): int}; None if unknown."""
+    e = peel(e, widen=True)
+    c = canon(e)
+    if c in assume:
+        return assume[c]
+    if e[0] == "const":
+        return e[1]
+    if e[0] == "cast":
+        return eval_assuming(e[2], assume)
+    if e[0] == "unop" and e[1] == "Not":
+        v = eval_assuming(e[2], assume)
+        return None if v is None else (0 if v else 1)
+    if e[0] == "binop":
+        a = eval_assuming(e[2], assume)
+        b = eval_assuming(e[3], assume)
+        if a is None or b is None:
+            return None
+        r = _cmp(e[1], a, b)
+        if r is not None:
+            return int(r)
+        if e[1] == "BitAnd":
+            return a & b
+        if e[1] == "BitOr":
+            return a | b
+    return None
+
+
+def reach_assuming(an, body, assume, start=0):
+    seen = set()
+    st = [start]
+    while st:
+        b = st.pop()
+        if b in seen:
+            continue
+        seen.add(b)
+        t = body.term(b)
+        nxt = body.succs(b)
+        if t["k"] == "switch":
+            v = eval_assuming(an.op(body, t["op"]), assume)
+            if v is not None:
+                tgt = t["otherwise"]
+                for val, tb in t["targets"]:
+                    if val == v:
+                        tgt = tb
+                nxt = [tgt]
+        for s in nxt:
+            if s not in seen:
+                st.append(s)
+    return seen
